@@ -85,6 +85,16 @@ static void opaque_roundtrip(mon::Rng& rng)
     if (sizeof(o) != sizeof(t) || !same_bits(t, back) || std::memcmp(&o, &t, sizeof(t)) != 0)
       report("opaque-roundtrip", "bits-differ", mon::fmt("%s value %s", ref::name<T>(), vs(v).c_str()));
     else n_bits_ok++;
+    // the one operation an opaque value has of its own: set_zero() leaves exactly the value tainted<T>(0) has
+    // (it assigns the literal 0, which an enumeration does not accept: not a program there)
+    if constexpr (!std::is_enum_v<T>) {
+      o.set_zero();
+      tainted<T, S> zero = T(0);
+      auto zb = from_opaque(o);
+      mon::evals();
+      if (!same_bits(zero, zb)) report("opaque-set_zero", "not-the-zero-value", mon::fmt("%s after set_zero on %s", ref::name<T>(), vs(v).c_str()));
+      else n_bits_ok++;
+    }
   }
   mon::distinct(mon::mix(0x0a, std::hash<std::string>()(ref::name<T>())));
   { static int ns = 0; if (ns++ % 4 == 0) mon::sample(mon::fmt("{\"opaque_roundtrip_type\":\"%s\",\"host_bytes\":%zu}", ref::name<T>(), sizeof(T))); }
